@@ -350,3 +350,12 @@ Example C05_nonvacuous_stage3 :
      (3%nat, 117, Bound BOther); (4%nat, 110, Bound BOther); (4%nat, 121, Bound BOther); (4%nat, 122, Bound BOther);
      (4%nat, 120, Bound BOther); (5%nat, 123, Unbound); (5%nat, 123, Bound BOther)].
 Proof. vm_compute. repeat split. Qed.
+
+
+(* the unused side on stage 3 (Fragment.u3_block: u2 with comprehensions) *)
+Theorem C05_unused_sound_stage3 : forall bi ns p, u3_block p = true -> star_free bi ns = true ->
+  imports_once bi ns p = true -> NoDup (imp_events (bsrcs_block false p)) ->
+  forall l i, In (l, i) (snd (finder bi ns true p)) ->
+  forall ln n, ~ In (ln, n, Bound (BImp l i)) (pysem bi ns p).
+Proof. exact u3_unused_sound. Qed.
+Print Assumptions C05_unused_sound_stage3.
